@@ -5,8 +5,8 @@
 #  (default: the property's own check, quick tier) through STV_REPO. Prints one summary line.
 P="$1"; K="$2"; shift 2
 CHECKS="${*:-$P}"
-OUT=/tmp/seed/$P.out
-WT=/tmp/sv_${P}_$K
+OUT=${SEEDBASE:-/tmp/seed}/$P.out
+WT=/tmp/sv_${SEEDTAG:-a}_${P}_$K
 [ -f $OUT/patch$K.diff ] || { echo "$P/$K: no patch"; exit 0; }
 git -C /repo worktree add -q --detach $WT HEAD || exit 9
 if ! git -C $WT apply $OUT/patch$K.diff 2>$WT.err; then echo "$P/$K: PATCH DOES NOT APPLY: $(head -2 $WT.err)"; git -C /repo worktree remove --force $WT; exit 0; fi
